@@ -131,6 +131,36 @@ theorem mem_of_filter_eq {cs cs' : List Id} {c x : Id}
   rw [h] at this
   exact (List.mem_filter.1 this).1
 
+/-- A window that names a parent is listed by it (a closed window names none). -/
+def ParentListed (t : Tree) : Prop :=
+  ∀ (x : Nat) (w : Win) (p : Id), t.wins[x]? = some w → w.parent = some p → ∃ pw, t.wins[p]? = some pw ∧ x ∈ pw.children
+
+/-- The same for every window but `c`. -/
+def ParentListedBut (t : Tree) (c : Id) : Prop :=
+  ∀ (x : Nat) (w : Win) (p : Id), x ≠ c → t.wins[x]? = some w → w.parent = some p → ∃ pw, t.wins[p]? = some pw ∧ x ∈ pw.children
+
+theorem ParentListed.but {t : Tree} (h : ParentListed t) (c : Id) : ParentListedBut t c :=
+  fun x w p _ hw hp => h x w p hw hp
+
+theorem parentListed_congr {t t' : Tree} (h : t'.wins = t.wins) (hp : ParentListed t) : ParentListed t' := by
+  intro x w p hw hpar
+  rw [h] at hw ⊢
+  exact hp x w p hw hpar
+
+theorem parentListed_core {t t' : Tree} (h : ∀ x : Id, (t'.wins[x]?).map core = (t.wins[x]?).map core) (hp : ParentListed t) :
+    ParentListed t' := by
+  intro x w' p hw' hpar
+  obtain ⟨w, hw, hc⟩ := map_core_some (h x).symm hw'
+  simp only [core, Prod.mk.injEq] at hc
+  obtain ⟨pw, hpw, hmem⟩ := hp x w p hw (by rw [hc.2.2.2.2.1]; exact hpar)
+  obtain ⟨pw', hpw', hc'⟩ := map_core_some (h p) hpw
+  simp only [core, Prod.mk.injEq] at hc'
+  exact ⟨pw', hpw', by rw [hc'.2.2.2.1]; exact hmem⟩
+
+theorem mem_of_filter_eq' {cs cs' : List Id} {c x : Id}
+    (h : cs'.filter (fun x => decide (x ≠ c)) = cs.filter (fun x => decide (x ≠ c))) (hx : x ∈ cs) (hxc : x ≠ c) : x ∈ cs' :=
+  mem_of_filter_eq h.symm hx hxc
+
 /-! ### the generic step -/
 
 /-- After `tb` (whose store is `t`'s) the optional expose of `e` in `p` keeps everything but the damage, which grows. -/
@@ -186,7 +216,8 @@ theorem relist_step (content : Id → Int → Int → Cell) (screen : Int → In
     (hcin : c ∈ cs → w0.parent = some p ∧ w0.isRoot = false ∧ @LT.lt Nat _ p c)
     (h : (if w0.isVisible then expose (WinTree.set t p { pw with children := cs }) fe p (some w0.rect)
           else pure (WinTree.set t p { pw with children := cs })) = .ok t') :
-    TInv content screen t' ∧ RootStep t t' ∧ t'.wins = (WinTree.set t p { pw with children := cs }).wins := by
+    TInv content screen t' ∧ RootStep t t' ∧ t'.wins = (WinTree.set t p { pw with children := cs }).wins ∧
+      (ParentListedBut t c → (∀ q, w0.parent = some q → q = p ∧ c ∈ cs) → ParentListed t') := by
   generalize hpw' : ({ pw with children := cs } : Win) = pw' at h ⊢
   generalize htb : WinTree.set t p pw' = tb at h ⊢
   have hpw'_f : pw'.isVisible = pw.isVisible ∧ pw'.freed = pw.freed ∧ pw'.rect = pw.rect ∧ pw'.parent = pw.parent ∧
@@ -299,8 +330,24 @@ theorem relist_step (content : Id → Int → Int → Cell) (screen : Int → In
       · rw [hb_c] at hcw; cases hcw; exact ⟨hv, hm⟩
     exact ⟨hvis.1, x, y, fun r hr' => by cases hr'; exact (memb_true_iff _ _ _).1 hvis.2,
       exposedAt_mono_le tb (by omega) hex⟩
-  exact expose_after content screen t tb t' fe p w0.isVisible w0.rect hokb hordb hrob hposb hb_root hI.nonempty hI.dinv
-    hI.inv hlocal h
+  obtain ⟨r1, r2, r3⟩ := expose_after content screen t tb t' fe p w0.isVisible w0.rect hokb hordb hrob hposb hb_root
+    hI.nonempty hI.dinv hI.inv hlocal h
+  refine ⟨r1, r2, r3, fun hpl hcq => parentListed_congr r3 ?_⟩
+  intro x wb q hwb hq
+  obtain ⟨w, hw, _, hp2, _, _, _, _, hxp⟩ := hrel x wb hwb
+  rw [hp2] at hq
+  by_cases hxc : x = c
+  · subst hxc
+    rw [hw0] at hw; cases hw
+    obtain ⟨hqp, hcm⟩ := hcq q hq
+    subst hqp
+    exact ⟨pw', hb_p, by rw [hpw'_f.2.2.2.2.2]; exact hcm⟩
+  · obtain ⟨qw, hqw, hmem⟩ := hpl x w q hxc hw hq
+    by_cases hqp : q = p
+    · subst hqp
+      rw [hpw] at hqw; cases hqw
+      exact ⟨pw', hb_p, by rw [hpw'_f.2.2.2.2.2]; exact mem_of_filter_eq' hfilter hmem hxc⟩
+    · exact ⟨qw, by rw [hb_other q hqp]; exact hqw, hmem⟩
 
 /-! ### the restacking kinds (applied from the queue at the head of `tickit_window_flush`) -/
 
@@ -337,7 +384,7 @@ theorem tinv_pointwise (content : Id → Int → Int → Cell) (screen : Int →
 theorem restack_step (content : Id → Int → Int → Cell) (screen : Int → Int → Cell) (t t' : Tree) (ch : Change) (p c : Id)
     (hch : isRestack ch = true) (hI : TInv content screen t)
     (h : doHierarchyChange t (t.wins.size + 1) ch p c = .ok t') :
-    TInv content screen t' ∧ RootStep t t' ∧ t'.wins.size = t.wins.size := by
+    TInv content screen t' ∧ RootStep t t' ∧ t'.wins.size = t.wins.size ∧ (ParentListed t → ParentListed t') := by
   unfold doHierarchyChange at h
   simp only [bind, Bind.bind] at h
   cases hgp : WinTree.get t p with
@@ -358,7 +405,7 @@ theorem restack_step (content : Id → Int → Int → Cell) (screen : Int → I
           cs.filter (fun x => decide (x ≠ c)) = pw.children.filter (fun x => decide (x ≠ c)) →
           (if w0.isVisible then expose (WinTree.set t p { pw with children := cs }) (t.wins.size + 1) p (some w0.rect)
             else pure (WinTree.set t p { pw with children := cs })) = .ok t' →
-          TInv content screen t' ∧ RootStep t t' ∧ t'.wins.size = t.wins.size := by
+          TInv content screen t' ∧ RootStep t t' ∧ t'.wins.size = t.wins.size ∧ (ParentListed t → ParentListed t') := by
         intro hmem cs hperm hfilter hh
         obtain ⟨cw, hcw, hcpar, hcr⟩ := hok.wf.child p pw hpw.1 c hmem
         rw [hw0.1] at hcw; cases hcw
@@ -377,10 +424,12 @@ theorem restack_step (content : Id → Int → Int → Cell) (screen : Int → I
           rw [hw0.1] at hcw; cases hcw
           rw [hcpar] at hcp
           exact hx (Option.some.inj hcp).symm
-        obtain ⟨h1, h2, h3⟩ := relist_step content screen t t' p c pw w0 cs (t.wins.size + 1) hI (by omega) hpw.1 hw0.1
+        obtain ⟨h1, h2, h3, h4⟩ := relist_step content screen t t' p c pw w0 cs (t.wins.size + 1) hI (by omega) hpw.1 hw0.1
           hpc hc0 honly hfilter ((List.Perm.nodup_iff hperm).2 (hok.nodup p pw hpw.1))
           (fun _ => ⟨hcpar, hcr, hI.ord p pw hpw.1 c hmem⟩) hh
-        exact ⟨h1, h2, by rw [h3, set_size]⟩
+        exact ⟨h1, h2, by rw [h3, set_size], fun hpl => h4 (hpl.but c) (fun q hq => by
+          rw [hcpar] at hq
+          exact ⟨(Option.some.inj hq).symm, (List.Perm.mem_iff hperm).2 hmem⟩)⟩
       cases ch with
       | insertFirst => cases hch
       | insertLast => cases hch
@@ -423,7 +472,11 @@ theorem restack_step (content : Id → Int → Int → Cell) (screen : Int → I
           obtain ⟨a1, a2, a3, a4, a5⟩ := tinv_pointwise content screen t tb hwb hsz hI
           obtain ⟨b1, b2, b3⟩ := expose_after content screen t tb t' (t.wins.size + 1) p w0.isVisible w0.rect a1 a2 a3 a4
             (by rw [← htb]; rfl) hI.nonempty hI.dinv hI.inv (fun L C hne => absurd (a5 L C) hne) h
-          exact ⟨b1, b2, by rw [b3, hsz]⟩
+          exact ⟨b1, b2, by rw [b3, hsz], fun hpl => parentListed_congr b3 (by
+            intro x w q hw hq
+            rw [hwb x] at hw
+            obtain ⟨qw, hqw, hm⟩ := hpl x w q hw hq
+            exact ⟨qw, by rw [hwb q]; exact hqw, hm⟩)⟩
       | lowerBack =>
         simp only at h
         cases hlr : listRemove pw.children c with
@@ -443,14 +496,14 @@ theorem restack_step (content : Id → Int → Int → Cell) (screen : Int → I
 theorem applyChanges_step (content : Id → Int → Int → Cell) (screen : Int → Int → Cell) :
     ∀ (q : List Req) (t t' : Tree), (∀ r ∈ q, isRestack r.change = true) → TInv content screen t →
     applyChanges (t.wins.size + 1) t q = .ok t' →
-    TInv content screen t' ∧ RootStep t t' ∧ t'.wins.size = t.wins.size := by
+    TInv content screen t' ∧ RootStep t t' ∧ t'.wins.size = t.wins.size ∧ (ParentListed t → ParentListed t') := by
   intro q
   induction q with
   | nil =>
     intro t t' _ hI h
     simp only [applyChanges] at h
     cases h
-    exact ⟨hI, RootStep.refl t, rfl⟩
+    exact ⟨hI, RootStep.refl t, rfl, fun h => h⟩
   | cons r rest ih =>
     intro t t' hk hI h
     simp only [applyChanges, bind, Bind.bind] at h
@@ -459,10 +512,10 @@ theorem applyChanges_step (content : Id → Int → Int → Cell) (screen : Int 
     | ok t1 =>
       rw [h1] at h
       simp only at h
-      obtain ⟨a1, a2, a3⟩ := restack_step content screen t t1 r.change r.parent r.win (hk r List.mem_cons_self) hI h1
+      obtain ⟨a1, a2, a3, a4⟩ := restack_step content screen t t1 r.change r.parent r.win (hk r List.mem_cons_self) hI h1
       rw [← a3] at h
-      obtain ⟨b1, b2, b3⟩ := ih t1 t' (fun x hx => hk x (List.mem_cons_of_mem _ hx)) a1 h
-      exact ⟨b1, a2.trans b2, by rw [b3, a3]⟩
+      obtain ⟨b1, b2, b3, b4⟩ := ih t1 t' (fun x hx => hk x (List.mem_cons_of_mem _ hx)) a1 h
+      exact ⟨b1, a2.trans b2, by rw [b3, a3], fun hpl => b4 (a4 hpl)⟩
 
 end WinFlush
 end Tickit
